@@ -832,8 +832,15 @@ def concile_table(check, repo, rules):
         d = kws.get('default')
         def _between(atom, attr):
             return set([atom[1], atom[2]]) == set([('A', L, attr), ('A', R, attr)])
+        def _upgraded_emptiness(atom):
+            # `X.upgraded_annotation is EmptyAnnotation`: a test on the evaluation wrapper, not on whether X is annotated -- the
+            # wrapper is also empty for annotated parameters of plain inspect.Signature inputs and of callables without code.
+            # Such a test is *not* the table's guard: it is set aside and the annotation column is judged without it.
+            return atom[0] == 'is' and any(isinstance(x, tuple) and x[0] == 'A' and x[2] == 'upgraded_annotation' for x in atom[1:]) and \
+                any(isinstance(x, tuple) and show(x).endswith('EmptyAnnotation') for x in atom[1:])
         unknown = [l for l in p.lits if l[0][0] not in ('has_default', 'has_annotation', 'eq')
-                   and not (l[0][0] == 'is' and (_between(l[0], 'default') or _between(l[0], 'annotation')))]
+                   and not (l[0][0] == 'is' and (_between(l[0], 'default') or _between(l[0], 'annotation')))
+                   and not _upgraded_emptiness(l[0])]
         if d is None:
             # default not overridden: keeps base's default
             dclass = 'base'
